@@ -137,6 +137,7 @@ func OpTable(w *load.World, c *core.Collector) {
 		c.Add("OPTABLE", "anchor:Search", core.Undecided, "", "IndexInverted.Search not found", props...)
 		return
 	}
+	f = unwrapThin(f) // Search may only take the lock and call the function that does the work
 	// Search(inv, query T, endQuery T, operator string): positions, not names
 	var opParam *ssa.Parameter
 	if len(f.Params) == 4 {
@@ -448,8 +449,9 @@ func TypeTab(w *load.World, c *core.Collector) {
 		p, _ := ssax.Path(v)
 		return strings.HasSuffix(strings.ReplaceAll(p, "*", ""), ".Type") || strings.HasSuffix(p, "itype") || strings.Contains(p, "Type")
 	}
-	// side A: normalised types
+	// side A: normalised types (the switch may live in a helper of the validator)
 	norm := map[string]map[string]bool{}
+	cm = homeOf(cm, func(g *ssa.Function) bool { return len(caseRegions(caseSuccs(g, isTag))) >= 4 })
 	regA := caseRegions(caseSuccs(cm, isTag))
 	for val := range idx.Values {
 		set := map[string]bool{}
@@ -460,6 +462,13 @@ func TypeTab(w *load.World, c *core.Collector) {
 				case *ssa.MapUpdate:
 					if mi, ok := x.Value.(*ssa.MakeInterface); ok {
 						set[typeKey(mi.X.Type())] = true
+					}
+				case *ssa.Return:
+					// the normalised value handed back to the caller, which stores it
+					if len(x.Results) > 0 {
+						if mi, ok := x.Results[0].(*ssa.MakeInterface); ok {
+							set[typeKey(mi.X.Type())] = true
+						}
 					}
 				case *ssa.TypeAssert:
 					if x.CommaOk {
@@ -528,6 +537,10 @@ func TypeTab(w *load.World, c *core.Collector) {
 						set[k] = true
 					}
 				}
+				// pre-processing functions handed on as values (to a generic drain helper)
+				for k := range classifyOperands(in, consumerOf) {
+					set[k] = true
+				}
 			}
 		}
 		cons[val] = set
@@ -577,4 +590,38 @@ func TypeTab(w *load.World, c *core.Collector) {
 			}
 		}
 	}
+}
+
+// classifyOperands: the types asserted by pre-processing functions that the
+// instruction mentions as function values (directly, or as bound method values).
+func classifyOperands(in ssa.Instruction, consumerOf func(*ssa.Function, map[*ssa.Function]bool) map[string]bool) map[string]bool {
+	out := map[string]bool{}
+	for _, op := range in.Operands(nil) {
+		var g *ssa.Function
+		switch x := (*op).(type) {
+		case *ssa.Function:
+			g = x
+		case *ssa.MakeClosure:
+			g, _ = x.Fn.(*ssa.Function)
+		}
+		if g == nil || !load.InMod(g) {
+			continue
+		}
+		name := g.Name()
+		if o := g.Origin(); o != nil {
+			name = o.Name()
+		}
+		name = strings.TrimSuffix(name, "$bound")
+		switch {
+		case name == "preProcessInverted" && len(g.TypeArgs()) > 0:
+			out[typeKey(g.TypeArgs()[0])] = true
+		case name == "preProcessInvertedArray" && len(g.TypeArgs()) > 0:
+			out["[]"+typeKey(g.TypeArgs()[0])] = true
+		case strings.HasPrefix(name, "preProcess"):
+			for k := range consumerOf(g, map[*ssa.Function]bool{}) {
+				out[k] = true
+			}
+		}
+	}
+	return out
 }
